@@ -24,6 +24,7 @@ pub mod c18;
 pub mod c19;
 pub mod c19_rogue;
 pub mod c20;
+pub mod c20_nodes;
 
 pub fn lookup(id: &str) -> Option<PropFn> {
     Some(match id {
